@@ -13,100 +13,7 @@ from ..simdev import SimDevice, MODE_SIGNER
 from ..transport import World, install
 
 
-class LiveManager:
-    """The real server loop on an ephemeral loopback port, in a thread of this process."""
-
-    def __init__(self, version):
-        self.version = version
-        self.device = SimDevice(mode=MODE_SIGNER, seed="c03")
-        self.world = World(self.device, "hid")
-        self.proto = mgr.make_protocol(self.world, version)
-        from comm.server import TCPServer
-        import comm.server as cs
-        self.shutdown_calls = 0
-        outer = self
-        if not getattr(cs._TCPServerRequestHandler, "_verif_wrapped", False):
-            orig = cs._TCPServerRequestHandler.shutdown
-
-            def shutdown(handler):
-                rec = getattr(handler.server, "_verif_owner", None)
-                if rec is not None:
-                    rec.shutdown_calls += 1
-                return orig(handler)
-            cs._TCPServerRequestHandler.shutdown = shutdown
-            cs._TCPServerRequestHandler._verif_wrapped = True
-        self.srv = TCPServer("127.0.0.1", 0, self.proto)
-        self.exc = None
-        self.thread = threading.Thread(target=self._run, daemon=True)
-        self.thread.start()
-        for _ in range(5000):
-            if self.srv.server is not None or not self.thread.is_alive():
-                break
-            threading.Event().wait(0.001)
-        if self.srv.server is None:
-            raise core.MachineryError("manager did not start: %s" % self.exc)
-        self.srv.server._verif_owner = self
-        self.addr = self.srv.server.server_address
-
-    def _run(self):
-        try:
-            self.srv.run()
-        except BaseException as e:   # noqa
-            self.exc = e
-
-    def request(self, line, timeout=60):
-        """One connection: send a line, read to EOF. Returns the conn event."""
-        install(self.world)
-        before = self.shutdown_calls
-        # keep the well-behaved device in a sane state between independent requests
-        try:
-            s = socket.create_connection(self.addr, timeout=5)
-        except OSError:
-            return {"connected": False, "nlines": 0, "isobj": False, "hascode": False, "shutdown": False}, b""
-        data = b""
-        try:
-            s.settimeout(timeout)
-            s.sendall(line + b"\n")
-            try:
-                s.shutdown(socket.SHUT_WR)
-            except OSError:
-                pass
-            while True:
-                try:
-                    b = s.recv(65536)
-                except (socket.timeout, ConnectionError):
-                    break
-                if not b:
-                    break
-                data += b
-        finally:
-            s.close()
-        ev = {"connected": True, "nlines": 0, "isobj": False, "hascode": False,
-              "shutdown": self.shutdown_calls > before}
-        if data:
-            parts = data.split(b"\n")
-            complete, rest = parts[:-1], parts[-1]
-            ev["nlines"] = len(complete) + (1 if rest else 0)
-            if len(complete) == 1 and not rest:
-                try:
-                    v = json.loads(complete[0].decode("utf-8"))
-                    ev["isobj"] = isinstance(v, dict)
-                    c = v.get("errorcode") if isinstance(v, dict) else None
-                    ev["hascode"] = isinstance(c, int) and not isinstance(c, bool)
-                except Exception:
-                    pass
-        return ev, data
-
-    def alive(self):
-        return self.thread.is_alive() and self.shutdown_calls == 0
-
-    def stop(self):
-        try:
-            if self.srv.server is not None:
-                self.srv.server.shutdown()
-        except Exception:
-            pass
-        self.thread.join(5)
+from ..live import LiveManager  # noqa: E402
 
 
 def write_cfg(path, classes, maxconns, poison, invs, props=(), spec="Spec", view=True):
